@@ -18,11 +18,13 @@
 (* and was not force-closed stays open for phase two.                        *)
 (* SplitClose = TRUE is the deliberate wrong design (check and mark of Close *)
 (* in two critical sections): the negative configuration shows that NoLeak   *)
-(* tells the two apart.                                                      *)
+(* tells the two apart.  SplitRelease = TRUE is the other one (release takes  *)
+(* its snapshot in one critical section and clears the hold in a later one,  *)
+(* seeded change C20-8).                                                     *)
 (***************************************************************************)
 EXTENDS Integers, FiniteSets, TLC
 
-CONSTANTS SplitClose, WithForce
+CONSTANTS SplitClose, SplitRelease, WithForce
 
 Ops == {"keep", "valid", "close", "release", "force"}
 
@@ -77,12 +79,14 @@ Close2 == /\ pc["close"] = "s2" /\ ClosePhysical /\ Go("close", "done")
 \* ---- release (o = "release"), and the tail of force
 Rel1(o, from) == /\ pc[o] = from
                  /\ snapK' = [snapK EXCEPT ![o] = kept] /\ snapO' = [snapO EXCEPT ![o] = poolClosed]
-                 /\ kept' = FALSE
+                 /\ kept' = IF SplitRelease THEN kept ELSE FALSE
                  /\ Go(o, IF kept THEN "s2" ELSE "done")
                  /\ UNCHANGED <<poolClosed, physClosed, keeper, closes, vres>>
+\* (the wrong design clears the hold here, in a critical section of its own, after the keeper entry is gone)
 Rel2(o) == /\ pc[o] = "s2" /\ keeper' = FALSE
+           /\ kept' = IF SplitRelease THEN FALSE ELSE kept
            /\ Go(o, IF snapO[o] THEN "s3" ELSE "done")
-           /\ UNCHANGED <<kept, poolClosed, physClosed, closes, vres, snapK, snapO>>
+           /\ UNCHANGED <<poolClosed, physClosed, closes, vres, snapK, snapO>>
 Rel3(o) == /\ pc[o] = "s3" /\ ClosePhysical /\ Go(o, "done")
            /\ UNCHANGED <<kept, poolClosed, keeper, vres, snapK, snapO>>
 Release1 == CanStart("release") /\ Rel1("release", "idle")
